@@ -49,3 +49,342 @@ Proof.
     + rewrite <- (map_id e) at 2. apply map_ext_in. intros [a c] Ha. cbn. f_equal. unfold w16. apply N.mod_small. apply (He _ Ha).
   - rewrite <- (map_id meta) at 2. apply map_ext_in. intros [a c] Ha. cbn. f_equal. unfold w16. apply N.mod_small. apply (Hm _ Ha).
 Qed.
+
+(* ---- the wrap-around, concretely --------------------------------------------------- *)
+
+Section Wrap.
+Variable r : bytes.          (* the hash of a node without children, e.g. a leaf that is a root *)
+Variable blob : bytes.
+Hypothesis Hr : r <> [].
+Hypothesis Hleaf : blob_kids blob = [].
+
+Definition one (p : N) (meta : list (bytes * N)) : dbstate :=
+  mkDb [mkC r [] (len blob) p []] meta [].
+
+Lemma insert_one : xstep db_empty (XInsert r blob) = one 0 [].
+Proof. cbn [xstep]. unfold db_insert. rewrite Hleaf. reflexivity. Qed.
+
+Lemma ref_one : forall p meta, (meta = [] \/ exists c, meta = [(r, c)]) ->
+  xstep (one p meta) (XRefMeta r) = one (p + 1) [(r, ext_get meta r + 1)].
+Proof.
+  intros p meta Hm. cbn [xstep]. unfold db_reference, one. cbn [db_nodes find_node cn_hash]. rewrite list_eqb_refl.
+  cbn [update_node cn_hash db_meta db_disk]. rewrite list_eqb_refl. unfold bump. cbn [cn_hash cn_kids cn_size cn_parents cn_ext].
+  f_equal. destruct Hm as [->|[c ->]].
+  - cbn. reflexivity.
+  - cbn [ext_get ext_set]. rewrite list_eqb_refl. replace (N.eqb (c + 1) 0) with false by lia. reflexivity.
+Qed.
+
+(* k references: the unbounded counters / the uint16 counters *)
+Lemma refs_N : forall k, fold_left xstep (repeat (XRefMeta r) (S k)) (one 0 []) = one (N.of_nat (S k)) [(r, N.of_nat (S k))].
+Proof.
+  induction k as [|k IH].
+  - cbn [repeat fold_left]. rewrite ref_one by (left; reflexivity). reflexivity.
+  - change (repeat (XRefMeta r) (S (S k))) with (XRefMeta r :: repeat (XRefMeta r) (S k)).
+    rewrite (repeat_cons (S k) (XRefMeta r)). rewrite fold_left_app. rewrite IH. cbn [fold_left].
+    rewrite ref_one by (right; eexists; reflexivity). cbn [ext_get]. rewrite list_eqb_refl.
+    replace (N.of_nat (S k) + 1) with (N.of_nat (S (S k))) by lia. reflexivity.
+Qed.
+
+Lemma wrap_one : forall p c, wrap16 (one p [(r, c)]) = one (w16 p) [(r, w16 c)].
+Proof. reflexivity. Qed.
+
+Lemma refs_16 : forall k, fold_left xstep16 (repeat (XRefMeta r) (S k)) (one 0 []) = one (w16 (N.of_nat (S k))) [(r, w16 (N.of_nat (S k)))].
+Proof.
+  induction k as [|k IH].
+  - cbn [repeat fold_left xstep16]. rewrite ref_one by (left; reflexivity). reflexivity.
+  - change (repeat (XRefMeta r) (S (S k))) with (XRefMeta r :: repeat (XRefMeta r) (S k)).
+    rewrite (repeat_cons (S k) (XRefMeta r)). rewrite fold_left_app. rewrite IH. cbn [fold_left xstep16].
+    rewrite ref_one by (right; eexists; reflexivity). cbn [ext_get]. rewrite list_eqb_refl. rewrite wrap_one.
+    assert (forall x, w16 (w16 x + 1) = w16 (x + 1)) as Hw by (intro x; unfold w16; rewrite N.add_mod_idemp_l by lia; reflexivity).
+    rewrite !Hw. replace (N.of_nat (S k) + 1) with (N.of_nat (S (S k))) by lia. reflexivity.
+Qed.
+
+(* with both counters at 0 one Dereference removes the node *)
+Lemma deref_zero : xstep (one 0 [(r, 0)]) (XDeref r) = mkDb [] [(r, 0)] [].
+Proof.
+  cbn [xstep]. unfold db_dereference. destruct r as [|b0 r0] eqn:Er; [congruence|]. rewrite <- Er.
+  unfold one. cbn [db_nodes length db_deref db_meta ext_get]. rewrite list_eqb_refl. cbn [N.ltb N.compare].
+  cbn [db_nodes find_node cn_hash]. rewrite list_eqb_refl. cbn [cn_parents N.ltb N.compare N.eqb update_node cn_hash db_nodes db_meta db_disk].
+  rewrite list_eqb_refl. cbn [cn_ext cn_kids map app fold_left db_nodes remove_node cn_hash db_meta db_disk cn_size].
+  rewrite list_eqb_refl. reflexivity.
+Qed.
+
+(* with positive counters one Dereference only decrements *)
+Lemma deref_pos : forall p c, p <> 0 -> c <> 0 -> xstep (one (p + 1) [(r, c + 1)]) (XDeref r) = one p [(r, c)].
+Proof.
+  intros p c Hp Hc. cbn [xstep]. unfold db_dereference. destruct r as [|b0 r0] eqn:Er; [congruence|]. rewrite <- Er.
+  unfold one. cbn [db_nodes length db_deref db_meta ext_get]. rewrite list_eqb_refl.
+  replace (N.ltb 0 (c + 1)) with true by lia. cbn [db_nodes db_meta db_disk ext_set]. rewrite list_eqb_refl.
+  replace (c + 1 - 1) with c by lia. replace (N.eqb c 0) with false by lia.
+  cbn [find_node cn_hash]. rewrite list_eqb_refl. cbn [cn_parents]. replace (N.ltb 0 (p + 1)) with true by lia.
+  replace (p + 1 - 1) with p by lia. replace (N.eqb p 0) with false by lia.
+  cbn [update_node cn_hash db_nodes db_meta db_disk]. rewrite list_eqb_refl. reflexivity.
+Qed.
+
+Definition wrap_schedule : list xop := XInsert r blob :: repeat (XRefMeta r) (N.to_nat 65536) ++ [XDeref r].
+
+(* 65536 references and one dereference: under uint16 counters the node is gone
+   (not cached, not on disk); with exact counters 65535 references are left and it is cached *)
+Lemma fl_cons : forall (f : dbstate -> xop -> dbstate) x l a, fold_left f (x :: l) a = fold_left f l (f a x).
+Proof. reflexivity. Qed.
+Lemma fl_one : forall (f : dbstate -> xop -> dbstate) x a, fold_left f [x] a = f a x.
+Proof. reflexivity. Qed.
+
+Lemma runN_wrap : forall k, N.of_nat (S k) = 65536 ->
+  fold_left xstep (XInsert r blob :: repeat (XRefMeta r) (S k) ++ [XDeref r]) db_empty = one 65535 [(r, 65535)].
+Proof.
+  intros k Ek2. rewrite fl_cons. rewrite insert_one. rewrite fold_left_app. rewrite refs_N. rewrite Ek2. rewrite fl_one.
+  apply (deref_pos 65535 65535); discriminate.
+Qed.
+
+Lemma run16_wrap : forall k, N.of_nat (S k) = 65536 ->
+  fold_left xstep16 (XInsert r blob :: repeat (XRefMeta r) (S k) ++ [XDeref r]) db_empty = mkDb [] [(r, 0)] [].
+Proof.
+  intros k Ek2. rewrite fl_cons. change (xstep16 db_empty (XInsert r blob)) with (wrap16 (xstep db_empty (XInsert r blob))).
+  rewrite insert_one. change (wrap16 (one 0 [])) with (one 0 []).
+  rewrite fold_left_app. rewrite refs_16. rewrite Ek2.
+  assert (w16 65536 = 0) as -> by reflexivity.
+  rewrite fl_one. apply deref_zero.
+Qed.
+
+Lemma uint16_wrap_loses_node :
+  ~ avail (run16 wrap_schedule) r /\
+  ext_get (db_meta (runN wrap_schedule)) r = 65535 /\ avail (runN wrap_schedule) r.
+Proof.
+  unfold run16, runN, wrap_schedule.
+  assert (exists k, N.to_nat 65536 = S k /\ N.of_nat (S k) = 65536) as [k [Ek Ek2]].
+  { exists (N.to_nat 65535). split; lia. }
+  rewrite Ek. rewrite (run16_wrap k Ek2), (runN_wrap k Ek2). split; [|split].
+  - intros [A|A]; destruct A.
+  - cbn [db_meta one ext_get]. rewrite list_eqb_refl. reflexivity.
+  - left. left. reflexivity.
+Qed.
+
+End Wrap.
+
+(* ---- the guard: counters never exceed the number of reference events -------------------- *)
+
+Fixpoint lmax (l : list N) : N := match l with [] => 0 | x :: r => N.max x (lmax r) end.
+Definition nctr (c : cnode) : N := N.max (cn_parents c) (lmax (map snd (cn_ext c))).
+Definition maxctr (s : dbstate) : N := N.max (lmax (map nctr (db_nodes s))) (lmax (map snd (db_meta s))).
+
+Lemma lmax_in : forall l x, In x l -> x <= lmax l.
+Proof. induction l as [|y l IH]; intros x Hx; [destruct Hx|]. cbn. destruct Hx as [->|Hx]; [lia|specialize (IH x Hx); lia]. Qed.
+
+Lemma lmax_le : forall l b, (forall x, In x l -> x <= b) -> lmax l <= b.
+Proof. induction l as [|y l IH]; intros b Hb; cbn; [lia|]. pose proof (Hb y (or_introl eq_refl)). specialize (IH b (fun x Hx => Hb x (or_intror Hx))). lia. Qed.
+
+Lemma lmax_app : forall a b, lmax (a ++ b) = N.max (lmax a) (lmax b).
+Proof. induction a as [|x a IH]; intro b; cbn; [lia|]. rewrite IH. lia. Qed.
+
+Lemma fits16_of_max : forall s, maxctr s < 65536 -> fits16 s.
+Proof.
+  intros s Hm. unfold maxctr in Hm. split.
+  - intros x Hx. pose proof (lmax_in _ _ (in_map nctr _ _ Hx)) as Hn.
+    assert (cn_parents x <= nctr x) as H1 by (unfold nctr; lia).
+    assert (lmax (map snd (cn_ext x)) <= nctr x) as H2 by (unfold nctr; lia).
+    split; [lia|]. intros p Hp. pose proof (lmax_in _ _ (in_map snd _ _ Hp)). lia.
+  - intros p Hp. pose proof (lmax_in _ _ (in_map snd _ _ Hp)). lia.
+Qed.
+
+Lemma ext_set_max : forall l h c, lmax (map snd (ext_set l h c)) <= N.max c (lmax (map snd l)).
+Proof.
+  induction l as [|[k c0] r IH]; intros h c; cbn [ext_set].
+  - destruct (N.eqb c 0); cbn; lia.
+  - destruct (list_eqb k h).
+    + destruct (N.eqb c 0); cbn; lia.
+    + cbn. specialize (IH h c). lia.
+Qed.
+
+Lemma ext_get_le : forall l h, ext_get l h <= lmax (map snd l).
+Proof. induction l as [|[k c0] r IH]; intro h; cbn; [lia|]. destruct (list_eqb k h); [lia|specialize (IH h); lia]. Qed.
+
+(* updating one node *)
+Lemma update_max : forall l h g b, (forall c, In c l -> nctr (g c) <= b) ->
+  lmax (map nctr (update_node l h g)) <= N.max b (lmax (map nctr l)).
+Proof.
+  induction l as [|c r IH]; intros h g b Hg; cbn; [lia|].
+  destruct (list_eqb (cn_hash c) h); cbn; [specialize (Hg c (or_introl eq_refl)); lia|].
+  specialize (IH h g b (fun c0 Hc0 => Hg c0 (or_intror Hc0))). lia.
+Qed.
+
+Lemma update_max_dec : forall l h g, (forall c, nctr (g c) <= nctr c) ->
+  lmax (map nctr (update_node l h g)) <= lmax (map nctr l).
+Proof.
+  induction l as [|c r IH]; intros h g Hg; cbn; [lia|].
+  destruct (list_eqb (cn_hash c) h); cbn; [specialize (Hg c); lia|specialize (IH h g Hg); lia].
+Qed.
+
+Lemma remove_max : forall l h, lmax (map nctr (remove_node l h)) <= lmax (map nctr l).
+Proof. induction l as [|c r IH]; intro h; cbn; [lia|]. destruct (list_eqb (cn_hash c) h); cbn; [lia|specialize (IH h); lia]. Qed.
+
+Lemma bump_max : forall l k, lmax (map nctr (update_node l k (bump 1))) <= lmax (map nctr l) + 1.
+Proof.
+  intros l k. pose proof (update_max l k (bump 1) (lmax (map nctr l) + 1)) as U.
+  assert (forall c, In c l -> nctr (bump 1 c) <= lmax (map nctr l) + 1) as Hb.
+  { intros c Hc. pose proof (lmax_in _ _ (in_map nctr _ _ Hc)) as Hle.
+    assert (cn_parents c <= nctr c) as Q1 by (unfold nctr; lia).
+    assert (lmax (map snd (cn_ext c)) <= nctr c) as Q2 by (unfold nctr; lia).
+    unfold nctr at 1, bump. cbn [cn_parents cn_ext]. lia. }
+  specialize (U Hb). lia.
+Qed.
+
+Lemma insert_max : forall s h b, maxctr (db_insert s (h, b)) <= maxctr s + N.of_nat (length (blob_kids b)).
+Proof.
+  intros s h b. unfold db_insert. generalize (blob_kids b). intro kids.
+  destruct (find_node (db_nodes s) h); [lia|]. unfold maxctr. cbn [db_nodes db_meta].
+  rewrite map_app, lmax_app.
+  assert (lmax (map nctr [mkC h kids (len b) 0 []]) = 0) as -> by reflexivity.
+  assert (forall l, lmax (map nctr (fold_left (fun l k => update_node l k (bump 1)) kids l)) <= lmax (map nctr l) + N.of_nat (length kids)) as Hk.
+  { induction kids as [|k r IH]; intro l; cbn [fold_left]; [cbn; lia|].
+    specialize (IH (update_node l k (bump 1))). pose proof (bump_max l k). cbn [length]. lia. }
+  specialize (Hk (db_nodes s)). lia.
+Qed.
+
+Lemma reference_max : forall s c p, maxctr (db_reference s c p) <= maxctr s + 1.
+Proof.
+  intros s c p. unfold db_reference. destruct (find_node (db_nodes s) c); [|lia].
+  destruct p as [|pb pr].
+  - unfold maxctr. cbn [db_nodes db_meta]. pose proof (bump_max (db_nodes s) c).
+    pose proof (ext_set_max (db_meta s) c (ext_get (db_meta s) c + 1)). pose proof (ext_get_le (db_meta s) c). lia.
+  - destruct (find_node (db_nodes s) (pb :: pr)) as [pn|]; [|lia].
+    destruct (N.ltb 0 (ext_get (cn_ext pn) c)); [lia|].
+    unfold maxctr. cbn [db_nodes db_meta]. pose proof (bump_max (db_nodes s) c) as B1.
+    set (l1 := update_node (db_nodes s) c (bump 1)) in *.
+    pose proof (update_max l1 (pb :: pr) (fun z => mkC (cn_hash z) (cn_kids z) (cn_size z) (cn_parents z) (ext_set (cn_ext z) c 1)) (N.max 1 (lmax (map nctr l1)))) as U.
+    assert (forall z, In z l1 -> nctr (mkC (cn_hash z) (cn_kids z) (cn_size z) (cn_parents z) (ext_set (cn_ext z) c 1)) <= N.max 1 (lmax (map nctr l1))) as Hg.
+    { intros z Hz. pose proof (lmax_in _ _ (in_map nctr _ _ Hz)) as Hle.
+      assert (cn_parents z <= nctr z) as Q1 by (unfold nctr; lia).
+      assert (lmax (map snd (cn_ext z)) <= nctr z) as Q2 by (unfold nctr; lia).
+      unfold nctr at 1. cbn [cn_parents cn_ext]. pose proof (ext_set_max (cn_ext z) c 1). lia. }
+    specialize (U Hg). lia.
+Qed.
+
+Lemma cap_loop_max : forall nodes size limit disk, lmax (map nctr (fst (cap_loop nodes size limit disk))) <= lmax (map nctr nodes).
+Proof.
+  induction nodes as [|c r IH]; intros size limit disk; cbn [cap_loop]; [cbn; lia|].
+  destruct (N.ltb limit size); [|cbn; lia]. specialize (IH (size - (96 + cn_size c)) limit (add_disk disk (cn_hash c))). cbn [map lmax fold_right]. lia.
+Qed.
+
+Lemma cap_max : forall s limit, maxctr (db_cap s limit) <= maxctr s.
+Proof.
+  intros s limit. unfold db_cap. pose proof (cap_loop_max (db_nodes s) (db_size s) limit (db_disk s)) as Hc.
+  destruct (cap_loop (db_nodes s) (db_size s) limit (db_disk s)) as [nodes disk]. cbn [fst] in Hc. unfold maxctr. cbn [db_nodes db_meta]. lia.
+Qed.
+
+Lemma uncache_max : forall f s h, maxctr (db_uncache f s h) <= maxctr s.
+Proof.
+  induction f as [|f IH]; intros s h; cbn [db_uncache]; [lia|].
+  destruct (find_node (db_nodes s) h) as [n|]; [|lia].
+  assert (forall ks st, maxctr (fold_left (fun st k => db_uncache f st k) ks st) <= maxctr st) as Hfold.
+  { induction ks as [|k ks IHk]; intro st; cbn [fold_left]; [lia|]. specialize (IHk (db_uncache f st k)). specialize (IH st k). lia. }
+  specialize (Hfold (map fst (cn_ext n) ++ cn_kids n) (mkDb (remove_node (db_nodes s) h) (db_meta s) (add_disk (db_disk s) h))).
+  unfold maxctr in *. cbn [db_nodes db_meta] in *. pose proof (remove_max (db_nodes s) h). lia.
+Qed.
+
+Lemma find_nctr_le : forall l h n, find_node l h = Some n -> nctr n <= lmax (map nctr l).
+Proof. intros l h n Hf. destruct (find_node_some _ _ _ Hf) as [A _]. apply lmax_in. apply in_map. exact A. Qed.
+
+Lemma deref_max : forall f s c p, maxctr (db_deref f s c p) <= maxctr s.
+Proof.
+  induction f as [|f IH]; intros s c p; cbn [db_deref]; [lia|].
+  set (s1 := match p with
+             | [] => let c0 := ext_get (db_meta s) c in
+                     if N.ltb 0 c0 then mkDb (db_nodes s) (ext_set (db_meta s) c (c0 - 1)) (db_disk s) else s
+             | _ => match find_node (db_nodes s) p with
+                    | None => s
+                    | Some p0 => let c0 := ext_get (cn_ext p0) c in
+                                 if N.ltb 0 c0
+                                 then mkDb (update_node (db_nodes s) p
+                                              (fun x => mkC (cn_hash x) (cn_kids x) (cn_size x) (cn_parents x) (ext_set (cn_ext x) c (c0 - 1))))
+                                           (db_meta s) (db_disk s)
+                                 else s
+                    end
+             end).
+  assert (maxctr s1 <= maxctr s) as H1.
+  { unfold s1. destruct p as [|pb pr].
+    - cbv zeta. destruct (N.ltb 0 (ext_get (db_meta s) c)) eqn:E; [|lia]. unfold maxctr. cbn [db_nodes db_meta].
+      pose proof (ext_set_max (db_meta s) c (ext_get (db_meta s) c - 1)). pose proof (ext_get_le (db_meta s) c). lia.
+    - destruct (find_node (db_nodes s) (pb :: pr)) as [p0|] eqn:Ef; [|lia]. cbv zeta.
+      destruct (N.ltb 0 (ext_get (cn_ext p0) c)) eqn:E; [|lia]. unfold maxctr. cbn [db_nodes db_meta].
+      pose proof (update_max (db_nodes s) (pb :: pr) (fun x => mkC (cn_hash x) (cn_kids x) (cn_size x) (cn_parents x) (ext_set (cn_ext x) c (ext_get (cn_ext p0) c - 1))) (lmax (map nctr (db_nodes s)))) as U.
+      assert (forall x, In x (db_nodes s) -> nctr (mkC (cn_hash x) (cn_kids x) (cn_size x) (cn_parents x) (ext_set (cn_ext x) c (ext_get (cn_ext p0) c - 1))) <= lmax (map nctr (db_nodes s))) as Hg.
+      { intros x Hx. pose proof (lmax_in _ _ (in_map nctr _ _ Hx)) as Hle. pose proof (find_nctr_le _ _ _ Ef) as Hp0.
+        assert (cn_parents x <= nctr x) as Q1 by (unfold nctr; lia).
+        assert (lmax (map snd (cn_ext x)) <= nctr x) as Q2 by (unfold nctr; lia).
+        assert (lmax (map snd (cn_ext p0)) <= nctr p0) as Q3 by (unfold nctr; lia).
+        unfold nctr at 1. cbn [cn_parents cn_ext].
+        pose proof (ext_set_max (cn_ext x) c (ext_get (cn_ext p0) c - 1)). pose proof (ext_get_le (cn_ext p0) c). lia. }
+      specialize (U Hg). lia. }
+  fold s1. destruct (find_node (db_nodes s1) c) as [n|] eqn:Efc; [|exact H1].
+  set (p' := if N.ltb 0 (cn_parents n) then cn_parents n - 1 else 0).
+  set (s2 := mkDb (update_node (db_nodes s1) c (fun x => mkC (cn_hash x) (cn_kids x) (cn_size x) p' (cn_ext x))) (db_meta s1) (db_disk s1)).
+  assert (maxctr s2 <= maxctr s1) as H2.
+  { unfold s2, maxctr. cbn [db_nodes db_meta].
+    pose proof (update_max (db_nodes s1) c (fun x => mkC (cn_hash x) (cn_kids x) (cn_size x) p' (cn_ext x)) (lmax (map nctr (db_nodes s1)))) as U.
+    assert (forall x, In x (db_nodes s1) -> nctr (mkC (cn_hash x) (cn_kids x) (cn_size x) p' (cn_ext x)) <= lmax (map nctr (db_nodes s1))) as Hg.
+    { intros x Hx. pose proof (lmax_in _ _ (in_map nctr _ _ Hx)) as Hle. pose proof (find_nctr_le _ _ _ Efc) as Hn.
+      assert (lmax (map snd (cn_ext x)) <= nctr x) as Q2 by (unfold nctr; lia).
+      assert (cn_parents n <= nctr n) as Q3 by (unfold nctr; lia).
+      unfold nctr at 1. cbn [cn_parents cn_ext]. unfold p'. destruct (N.ltb 0 (cn_parents n)); lia. }
+    specialize (U Hg). lia. }
+  destruct (N.eqb p' 0); [|lia].
+  assert (forall ks st, maxctr (fold_left (fun st k => db_deref f st k c) ks st) <= maxctr st) as Hfold.
+  { induction ks as [|k ks IHk]; intro st; cbn [fold_left]; [lia|]. specialize (IHk (db_deref f st k c)). specialize (IH st k c). lia. }
+  specialize (Hfold (map fst (cn_ext n) ++ cn_kids n) s2).
+  set (s3 := fold_left (fun st k => db_deref f st k c) (map fst (cn_ext n) ++ cn_kids n) s2) in *.
+  unfold maxctr in *. cbn [db_nodes db_meta] in *. pose proof (remove_max (db_nodes s3) c). lia.
+Qed.
+
+Lemma dereference_max : forall s r, maxctr (db_dereference s r) <= maxctr s.
+Proof. intros s r. unfold db_dereference. destruct r; [lia|apply deref_max]. Qed.
+
+(* the number of reference events of a schedule: the children named by the inserted blobs, and the Reference calls *)
+Definition xcost (o : xop) : N :=
+  match o with
+  | XInsert _ b => N.of_nat (length (blob_kids b))
+  | XRefMeta _ | XRefNode _ _ => 1
+  | _ => 0
+  end.
+Fixpoint events (ops : list xop) : N := match ops with [] => 0 | o :: r => xcost o + events r end.
+
+Lemma xstep_max : forall s o, maxctr (xstep s o) <= maxctr s + xcost o.
+Proof.
+  intros s o. destruct o; cbn [xstep xcost].
+  - apply insert_max.
+  - apply reference_max.
+  - apply reference_max.
+  - pose proof (dereference_max s r). lia.
+  - pose proof (cap_max s limit). lia.
+  - unfold db_commit. pose proof (uncache_max (S (length (db_nodes s))) s r). lia.
+Qed.
+
+Lemma runN_max : forall ops s, maxctr (fold_left xstep ops s) <= maxctr s + events ops.
+Proof.
+  induction ops as [|o ops IH]; intro s; cbn [fold_left events]; [lia|].
+  specialize (IH (xstep s o)). pose proof (xstep_max s o). lia.
+Qed.
+
+(* below 2^16 reference events the uint16 code and the exact model run in lock step *)
+Lemma xstep16_eq : forall s o, maxctr s + xcost o < 65536 -> xstep16 s o = xstep s o.
+Proof.
+  intros s o Hb. pose proof (xstep_max s o) as Hm. destruct o; try reflexivity; apply wrap16_id, fits16_of_max; lia.
+Qed.
+
+Lemma run16_eq : forall ops s, maxctr s + events ops < 65536 ->
+  fold_left xstep16 ops s = fold_left xstep ops s.
+Proof.
+  induction ops as [|o ops IH]; intros s Hb; [reflexivity|].
+  change (events (o :: ops)) with (xcost o + events ops) in Hb.
+  change (fold_left xstep16 (o :: ops) s) with (fold_left xstep16 ops (xstep16 s o)).
+  change (fold_left xstep (o :: ops) s) with (fold_left xstep ops (xstep s o)).
+  pose proof (xstep_max s o) as Hm. rewrite xstep16_eq by lia. apply IH. lia.
+Qed.
+
+Lemma uint16_guard : forall ops, events ops < 65536 ->
+  run16 ops = runN ops /\ maxctr (runN ops) <= events ops.
+Proof.
+  intros ops Hb. unfold run16, runN. split.
+  - apply run16_eq. change (maxctr db_empty) with 0. lia.
+  - pose proof (runN_max ops db_empty) as Hm. change (maxctr db_empty) with 0 in Hm. lia.
+Qed.
